@@ -39,6 +39,7 @@ REAL = types.SimpleNamespace(
     kill=os.kill,
     signal=signal.signal,
     getsignal=signal.getsignal,
+    set_wakeup_fd=signal.set_wakeup_fd,
     read=os.read,
     time=time.time,
     sqlite_connect=sqlite3.connect,
@@ -66,6 +67,19 @@ class SimUnsupported(SimLimit):
 
 def is_main():
     return threading.get_ident() == MAIN_IDENT
+
+
+def fd_readable(fd):
+    """poll-based (select() cannot handle descriptors >= 1024)"""
+    p = select.poll()
+    p.register(fd, select.POLLIN | select.POLLHUP | select.POLLERR)
+    return bool(p.poll(0))
+
+
+def fd_writable(fd):
+    p = select.poll()
+    p.register(fd, select.POLLOUT | select.POLLERR)
+    return bool(p.poll(0))
 
 
 # ------------------------------------------------------------------------------------------
@@ -160,6 +174,7 @@ class Worker:
         self.state = "queued"  # queued | parked | running | done
         self.wait_fd = None
         self.abandon = False
+        self.in_proxy = False
         self.thread = threading.Thread(target=self._body, name="simtee-%d" % idx, daemon=True)
         self.thread.start()
 
@@ -168,6 +183,9 @@ class Worker:
         try:
             if self.abandon:
                 raise _Abandon()
+            s = CUR
+            if s is not None:
+                s.worker_by_ident[threading.get_ident()] = self
             self.state = "running"
             r = self.fn(*self.args, **self.kwargs)
             self.future.set_result(r)
@@ -193,8 +211,9 @@ class Worker:
         if self.state == "queued":
             return active < self.executor.max
         if self.state == "parked":
-            r, _, _ = select.select([self.wait_fd], [], [], 0)
-            return bool(r)
+            if self.wait_fd is None:
+                return True         # parked at a line boundary, can always continue
+            return fd_readable(self.wait_fd)
         return False
 
     def step(self):
@@ -266,6 +285,14 @@ class PipeProxy:
         data = self.read1(len(b))
         b[: len(data)] = data
         return len(data)
+
+    def readinto1(self, b):
+        return self.readinto(b)
+
+    def peek(self, n=0):
+        if not self._buf and not self._eof:
+            self._buf = self._fill(4096)
+        return self._buf
 
     def fileno(self):
         return self._fd
@@ -373,6 +400,7 @@ class FakeGit:
         self.state = state
         self.calls = 0
         self._anc_cache = {}
+        self._nested = None
 
     def _by_hash(self, h):
         for name in self.state.get("commits", {}):
@@ -424,7 +452,17 @@ class FakeGit:
         s = CUR
         if s is not None:
             s.emit("git", " ".join(argv[1:3]))
-        rc, out = self._exec(argv[1:])
+        target = self
+        nested = self.state.get("nested")
+        if nested and s is not None:
+            # git answers for the repository that contains the directory it is started in
+            where = os.path.realpath(os.fspath(cwd) if cwd is not None else os.getcwd())
+            ndir = os.path.realpath(os.path.join(str(s.root), nested["dir"]))
+            if where == ndir or where.startswith(ndir + os.sep):
+                if self._nested is None or self._nested.state is not nested["state"]:
+                    self._nested = FakeGit(nested["state"])
+                target = self._nested
+        rc, out = target._exec(argv[1:])
         if s is not None and is_main():
             s.after_call()
         o = out if text else out.encode()
@@ -668,7 +706,16 @@ MONITOR = Monitor()
 
 def _cb_line(code, line):
     s = CUR
-    if s is None or s.in_cb or threading.get_ident() != MAIN_IDENT:
+    if s is None:
+        return
+    ident = threading.get_ident()
+    if ident != MAIN_IDENT:
+        # a tee worker executing Conductor code: every line is a pre-emption point
+        w = s.worker_by_ident.get(ident)
+        if w is not None and w.state == "running" and not w.in_proxy:
+            w.park(None)
+        return
+    if s.in_cb:
         return
     s.in_cb = 1
     try:
@@ -801,6 +848,17 @@ def _sh_signal(sig, h):
     return old
 
 
+def _sh_set_wakeup_fd(fd, *, warn_on_full_buffer=True):
+    s = CUR
+    if s is None or not is_main():
+        return REAL.set_wakeup_fd(fd, warn_on_full_buffer=warn_on_full_buffer)
+    old = s.wakeup_fd if s.wakeup_fd is not None else -1
+    s.wakeup_fd = fd if fd >= 0 else None
+    s.emit("wakeupfd", fd >= 0)
+    s.after_call()
+    return old
+
+
 def _sh_getsignal(sig):
     s = CUR
     if s is None or sig not in (signal.SIGCHLD, signal.SIGINT, signal.SIGTERM):
@@ -812,9 +870,8 @@ def _sh_read(fd, n):
     s = CUR
     if s is None or not is_main() or s.in_cb or fd in s.real_fds:
         return REAL.read(fd, n)
-    r, _, _ = select.select([fd], [], [], 0)
-    if not r:
-        s.block(lambda: bool(select.select([fd], [], [], 0)[0]), "read")
+    if not fd_readable(fd):
+        s.block(lambda: fd_readable(fd), "read")
     data = REAL.read(fd, n)
     s.after_call()
     return data
@@ -916,6 +973,7 @@ def install():
     os.kill = _sh_kill
     signal.signal = _sh_signal
     signal.getsignal = _sh_getsignal
+    signal.set_wakeup_fd = _sh_set_wakeup_fd
     os.read = _sh_read
     time.time = _sh_time
     sqlite3.connect = _sh_sqlite_connect
@@ -1028,6 +1086,9 @@ class Sim:
         self.plan_async_keys = None
         self.n_cap = 3_000_000
         self.real_fds = set()
+        self.worker_by_ident = {}
+        self.sig_seq = 0
+        self.wakeup_fd = None
 
     def count(self, key, k=1):
         self.stats[key] = self.stats.get(key, 0) + k
@@ -1127,6 +1188,19 @@ class Sim:
             self.run_child_to_end(p)
         return pid
 
+    def raise_signal(self, signum):
+        """kernel side + CPython's C-level handler: the signal is marked tripped (its Python handler runs
+        at the next check point of the main thread) and, if a wakeup fd is set, a byte is written to it"""
+        self.pending.add(int(signum))
+        self.sig_seq += 1
+        fd = self.wakeup_fd
+        h = self.handlers.get(int(signum), signal.SIG_DFL)
+        if fd is not None and fd >= 0 and callable(h):
+            try:
+                os.write(fd, bytes([int(signum)]))
+            except OSError:
+                pass
+
     def _finish_proc(self, p, status, how):
         for fd in p.fds.values():
             try:
@@ -1137,9 +1211,7 @@ class Sim:
         p.state = "zombie"
         p.status = status
         self.emit("exit", p.name, how, status)
-        if not p.stray:
-            pass
-        self.pending.add(int(signal.SIGCHLD))
+        self.raise_signal(signal.SIGCHLD)
 
     def child_enabled(self, p):
         if p.state != "running":
@@ -1148,8 +1220,7 @@ class Sim:
             fd = p.fds.get(p.partial[0])
             if fd is None:
                 return True
-            _, w, _ = select.select([], [fd], [], 0)
-            return bool(w)
+            return fd_writable(fd)
         return True
 
     def child_step(self, p):
@@ -1414,7 +1485,7 @@ class Sim:
                 live = sorted(p.name for p in self.procs.values() if p.state == "running" and not p.stray)
                 self.emit("sigsent", sp[1], self.cp, where, live, self._in_destructor())
                 self.count("fault.SIG" + sp[1])
-                self.pending.add(int(getattr(signal, "SIG" + sp[1])))
+                self.raise_signal(getattr(signal, "SIG" + sp[1]))
         if self.pending:
             self.dispatch()
 
@@ -1447,6 +1518,12 @@ class Sim:
             # frozen there, so only worker/child progress can unblock; run it directly
             pass
         self.emit("blk", why)
+        # A signal whose C-level handler already ran (after the last check point, before this call
+        # started blocking) does not interrupt the call: CPython runs Python-level handlers on EINTR
+        # only, i.e. for signals that arrive while the thread is blocked.
+        seen_seq = self.sig_seq
+        if self.pending:
+            self.count("reach.signal_tripped_between_last_check_point_and_blocking_call")
         while True:
             if int(signal.SIGINT) in self.handlers and int(signal.SIGTERM) in self.handlers:
                 self.cp += 1
@@ -1458,15 +1535,16 @@ class Sim:
                                   if p.state == "running" and not p.stray)
                     self.emit("sigsent", sp[1], self.cp, self.sig_where, live, self._in_destructor())
                     self.count("fault.SIG" + sp[1])
-                    self.pending.add(int(getattr(signal, "SIG" + sp[1])))
-            if self.pending and not self.in_cb:
+                    self.raise_signal(getattr(signal, "SIG" + sp[1]))
+            if self.pending and not self.in_cb and self.sig_seq != seen_seq:
+                seen_seq = self.sig_seq
                 self.dispatch()
             if ready():
                 return
             acts = self.enabled_actions()
             if not acts:
-                self.emit("DEADLOCK", why)
-                raise SimDeadlock(why)
+                self.emit("DEADLOCK", why, sorted(self.pending))
+                raise SimDeadlock(why + (" with-undelivered-signal" if self.pending else ""))
             for a in self.sched.at_block(acts):
                 self.perform(a)
             self.block_iters += 1
@@ -1656,7 +1734,18 @@ class Sim:
                 w.go.release()
         for w in self.workers:
             w.thread.join(timeout=5)
+        # process exit closes every descriptor
+        for w in self.workers:
+            for a in (w.args or ()):
+                if isinstance(a, PipeProxy):
+                    try:
+                        a._f.close()
+                    except Exception:
+                        pass
+            w.args = None
+            w.fn = None
         self.workers = []
+        self.worker_by_ident = {}
 
 
 def execno_idx_ok(lst, i):
